@@ -480,6 +480,24 @@ def _announce_reader(prog, folder):
                     if any(isinstance(x, ast.Attribute) and x.attr in ("casefold", "lower", "upper") for r_ in roots for x in ast.walk(r_)):
                         casefold = True
                 return tuple(v), casefold, c
+    # the reader searches by other means (str.find / `in` in a loop over the announcements): the table is the iterable of
+    # a loop of the reader's region that folds to >= 2 strings and whose variable is what is searched for
+    for ed in prog.region(ed0):
+        for lp in ast.walk(ed.node):
+            if not (isinstance(lp, (ast.For, ast.comprehension)) and isinstance(lp.target, ast.Name)):
+                continue
+            var = lp.target.id
+            scope_ = lp if isinstance(lp, ast.For) else lp._parent
+            searched = any(isinstance(c, ast.Call) and isinstance(c.func, ast.Attribute) and c.func.attr in ("find", "index", "rfind", "startswith", "partition", "split")
+                           and any(isinstance(x, ast.Name) and x.id == var for a_ in c.args for x in ast.walk(a_)) for c in ast.walk(scope_)) \
+                or any(isinstance(c, ast.Compare) and isinstance(c.ops[0], ast.In) and any(isinstance(x, ast.Name) and x.id == var for x in ast.walk(c.left)) for c in ast.walk(scope_))
+            if not searched:
+                continue
+            for cand in _value_candidates(prog, lp.iter, ed.node):
+                vv = folder.fold(cand, {}, cand)
+                if vv is not UNKNOWN and isinstance(vv, (tuple, list, frozenset)) and len(vv) >= 2 and all(isinstance(x, str) for x in vv):
+                    casefold = any(isinstance(x, ast.Attribute) and x.attr in ("casefold", "lower", "upper") for x in ast.walk(ed.node))
+                    return tuple(sorted(vv) if isinstance(vv, frozenset) else vv), casefold, lp.iter
     raise AnalysisError("TABLE-announce: the announcement tuple of extract_default does not fold")
 
 
